@@ -8,8 +8,9 @@ PROPS = {
         assumptions=[],
         level_text="todo",
         level_note="todo",
-        tests=[dict(unit="c02node", test="TestVerifC02Assign", quick=40000, thorough=1000000, env={"VERIF_PENDING_KNOWN": "C02-v4-not-on-v6-eni"}),
-               dict(unit="c02node", test="TestVerifC02KnownV4NotOnV6ENI", quick=1, thorough=1, shards=1, env={"VERIF_PENDING_KNOWN": "C02-v4-not-on-v6-eni"}),
-               dict(unit="c02node", test="TestVerifC02Loop", quick=2400, thorough=60000, env={"VERIF_PENDING_KNOWN": "C02-v4-not-on-v6-eni"})],
+        tests=[dict(unit="c02node", test="TestVerifC02Assign", quick=40000, thorough=1000000, env={"VERIF_PENDING_KNOWN": "C02-v4-not-on-v6-eni,C02-rollback-unbinds-existing-v4"}),
+               dict(unit="c02node", test="TestVerifC02KnownV4NotOnV6ENI", quick=1, thorough=1, shards=1, env={"VERIF_PENDING_KNOWN": "C02-v4-not-on-v6-eni,C02-rollback-unbinds-existing-v4"}),
+               dict(unit="c02node", test="TestVerifC02KnownRollbackUnbindsExistingV4", quick=1, thorough=1, shards=1, env={"VERIF_PENDING_KNOWN": "C02-v4-not-on-v6-eni,C02-rollback-unbinds-existing-v4"}),
+               dict(unit="c02node", test="TestVerifC02Loop", quick=2400, thorough=60000, env={"VERIF_PENDING_KNOWN": "C02-v4-not-on-v6-eni,C02-rollback-unbinds-existing-v4"})],
     ),
 }
